@@ -53,6 +53,9 @@ def main():
         old = json.load(open(os.path.join(out, "meta.json")))
         meta["confirmed"] = old.get("confirmed", {})
         meta["needs_to_manifest"] = old.get("needs_to_manifest", a.needs)
+        for keep in ("patch_rebased", "status", "superseded_by", "note"):
+            if keep in old:
+                meta[keep] = old[keep]
         ran = [l for l in old.get("what_was_run", []) if not l.startswith("git -C /repo apply")]
         if "caught_on_arrival" in old:
             meta["caught_on_arrival"] = old["caught_on_arrival"]
